@@ -55,8 +55,13 @@ def batchesOpt (cap tg : Nat) (ps : List (PIn × Bool)) : Option (List Bt) :=
 def sessionId (msgId : String) (i : Nat) : String := msgId ++ "-" ++ toString i
 
 /-- what `Execute` hashes and signs: the non-empty batches, each under its positional session id -/
-def signed (msgId : String) (bs : List Bt) : List (String × List Nat) :=
-  (bs.zipIdx.filter (fun b => b.1.members ≠ [])).map fun b => (sessionId msgId b.2, b.1.members.map (·.1))
+def signedFrom (msgId : String) : Nat → List Bt → List (String × List Nat)
+  | _, [] => []
+  | k, b :: bs =>
+    if b.members = [] then signedFrom msgId (k+1) bs
+    else (sessionId msgId k, b.members.map (·.1)) :: signedFrom msgId (k+1) bs
+
+def signed (msgId : String) (bs : List Bt) : List (String × List Nat) := signedFrom msgId 0 bs
 
 /-! ### the property, as an executable predicate on *any* candidate output -/
 
